@@ -620,9 +620,19 @@ func (w *world) runClient(c *client) {
 		}
 	}
 	stale := 0 // recipients of transactions abandoned by a repeated LHLO
+	openTx := false // the server still has the previous transaction open
 	for _, tx := range c.txs {
+		wasOpen := openTx
+		openTx = false
 		stray := func(at int) bool {
 			if tx.Stray == "" || tx.StrayAt != at {
+				return true
+			}
+			if at == 0 && wasOpen {
+				// the previous transaction was left open (next MAIL without
+				// RSET): a command sent now is not "outside a transaction" -
+				// a RCPT would join that transaction (false alarm of the
+				// thorough tier: its LMTP reply looked foreign)
 				return true
 			}
 			s.Stat("client_stray_command")
@@ -732,6 +742,7 @@ func (w *world) runClient(c *client) {
 			// nothing was accepted: some clients simply start over
 			s.Stat("client_next_mail_without_reset")
 			tx.Done = true
+			openTx = wasOpen || tx.MailReply.OK()
 			continue
 		}
 		if tx.Pause {
